@@ -18,7 +18,7 @@ def run(ctx):
         if not ctx.quick:
             ctx.mc("MCEchPipe", "MCEchPipe_rl.cfg", timeout=3000)     # liveness: a persistent reader gets everything
             ctx.mc("MCEchPipe", "MCEchPipe_rt.cfg", timeout=3000)
-    pipe_traces(ctx, 1200 if ctx.quick else 40000)
+    pipe_traces(ctx, 1200 if ctx.quick else 16000)
 
 
 def pipe_traces(ctx, n, label="pp"):
